@@ -631,9 +631,9 @@ var (
 )
 
 // Guarded runs fn on its own goroutine. If fn has not returned after limit (a wall-clock watchdog
-// that decides nothing by itself), the goroutine's stack is sampled twice, a few seconds apart:
-// when both samples show it blocked in the acquisition of a sync.Mutex / sync.RWMutex for at
-// least a minute ("[sync.Mutex.Lock, N minutes]") with identical frames, the code under test is
+// that decides nothing by itself), the goroutine's stack is sampled twice, ten seconds apart:
+// when both samples show it blocked in the acquisition of a sync.Mutex / sync.RWMutex
+// ("[sync.Mutex.Lock]") with identical frames, the code under test is
 // wedged on a lock nobody will release; wedgedAt then names the first frame of the repository
 // under test on that stack and stack holds the sample. Anything else (still running, blocked on
 // a channel, ...) leaves wedgedAt empty: the caller reports inconclusive. The goroutine is left
@@ -656,13 +656,15 @@ func Guarded(limit time.Duration, fn func()) (finished bool, wedgedAt string, st
 	select {
 	case <-done:
 		return true, "", ""
-	case <-time.After(5 * time.Second):
+	case <-time.After(10 * time.Second):
 	}
 	s2 := stackOf(id)
 	h1, f1 := splitStack(s1)
 	h2, f2 := splitStack(s2)
+	// (the runtime prints how long a goroutine has waited only once a garbage collection has seen it
+	// waiting, so the duration is not required)
 	onLock := func(h string) bool {
-		return (strings.Contains(h, "sync.Mutex.Lock") || strings.Contains(h, "sync.RWMutex.")) && strings.Contains(h, "minutes")
+		return strings.Contains(h, "sync.Mutex.Lock") || strings.Contains(h, "sync.RWMutex.")
 	}
 	if s1 != "" && onLock(h1) && onLock(h2) && f1 == f2 {
 		for _, l := range strings.Split(f2, "\n") {
